@@ -12,6 +12,12 @@ R19d name lookups are guarded: every `C.has(K)` / `C.get(K)` is dominated by a b
      (has/get raise on None/blank) or is a justified entry; every `C.get(K)` is dominated by a
      successful has(K) (or is unreachable from its missing edge, R19a).
 R19e lsp_analysis.lint wraps analysis in `except Exception` that still yields a diagnostic list.
+R19f totality of the partial operations in analyzer methods: every `max(..)`/`min(..)` without `default=`
+     is applied to a collection that is provably non-empty where it is evaluated - a truthiness test of
+     the very expression the collection is built from (comprehension without filter) dominates it, or
+     the call is the guarded arm of `.. if <collection> else ..`; every load/del `D[K]` of a dictionary
+     attribute is dominated by `K in D` (or by `D.get(K)` having returned a value); a subscript with the
+     result of `max(D, key=D.get)` on the same D is total.
 Decides the lookup discipline for all method texts and tag/command sets; exceptions inside pint
 are outside.
 """
@@ -19,8 +25,8 @@ from __future__ import annotations
 
 import ast
 
-from ..model import AnchorError, norm, walk_no_nested
-from ..util import cfg_of, call_attr, local_single_defs
+from ..model import AnchorError, norm, walk_no_nested, parent_map
+from ..util import cfg_of, call_attr, local_single_defs, expand_local
 from ..cfg import facts_at, handler_is_catch_all
 
 EXPLANATION = __doc__
@@ -81,7 +87,7 @@ def run(ctx) -> None:
     classes = [base] + base.all_subclasses()
     for r, d in [("R19a", "no get()/[] on the missing edge of has()"), ("R19b", "missing edge always reports an ERROR item"),
                  ("R19c", "AnalyzerItem never gets both length and end"), ("R19d", "lookups guarded by blank test / has"),
-                 ("R19e", "lint catches everything")]:
+                 ("R19e", "lint catches everything"), ("R19f", "max/min and dictionary subscripts are total")]:
         ctx.rule(r, d)
     funcs = [m for c in classes if not c.module.is_test for m in c.methods.values()]
     n_has = 0
@@ -138,6 +144,61 @@ def run(ctx) -> None:
                         ctx.ok("R19d", inst)  # reachability from the missing edge is R19a's verdict
                     else:
                         ctx.fail("R19d", f, x, inst, f"{coll}.get({key}) raises for an undefined name and no has({key}) test exists")
+        # R19f
+        pmap = parent_map(f.node)
+        for n in g.nodes:
+            for x in n.walk():
+                if isinstance(x, ast.Call) and isinstance(x.func, ast.Name) and x.func.id in ("max", "min") and len(x.args) == 1 \
+                        and not any(k.arg == "default" for k in x.keywords):
+                    ctx.analysed(f)
+                    coll = x.args[0]
+                    src = expand_local(coll, defs) if isinstance(coll, ast.Name) else coll
+                    base_src = src
+                    if isinstance(src, (ast.DictComp, ast.ListComp, ast.SetComp, ast.GeneratorExp)) and len(src.generators) == 1 \
+                            and not src.generators[0].ifs:
+                        base_src = src.generators[0].iter
+                    if isinstance(base_src, ast.Call) and isinstance(base_src.func, ast.Attribute) \
+                            and base_src.func.attr in ("keys", "values", "items") and not base_src.args:
+                        base_src = base_src.func.value
+                    facts = facts_at(g, n, defs)
+                    want = {norm(coll), norm(base_src)}
+                    ok = any((a in want and pol) or any(a in (f"len({w}) > 0", f"len({w}) != 0", f"len({w}) >= 1") and pol for w in want)
+                             or any(a == f"len({w}) == 0" and not pol for w in want) for a, pol in facts)
+                    par = pmap.get(id(x))
+                    if isinstance(par, ast.IfExp) and par.body is x and norm(par.test) in want:
+                        ok = True
+                    inst = f"{f.short}: {norm(x)[:60]} on a non-empty collection"
+                    if ok:
+                        ctx.ok("R19f", inst, {"rule": "R19f", "site": inst, "collection": norm(base_src)})
+                    else:
+                        ctx.fail("R19f", f, x, inst, f"`{norm(x)[:50]}` raises ValueError when `{norm(base_src)[:70]}` is empty and nothing "
+                                 "that dominates the call tests that expression for emptiness: analysis of the whole method crashes")
+                if isinstance(x, ast.Subscript) and isinstance(x.ctx, (ast.Load, ast.Del)) and not isinstance(x.slice, ast.Slice) \
+                        and isinstance(x.value, (ast.Name, ast.Attribute)) and f.name != "__init__":
+                    d, kx = norm(x.value), norm(x.slice)
+                    is_attr_dict = isinstance(x.value, ast.Attribute) and norm(x.value.value) == "self" and f.cls is not None and \
+                        any("dict" in norm(c.inst_attr_ann.get(x.value.attr)) for c in f.cls.mro()
+                            if c.inst_attr_ann.get(x.value.attr) is not None)
+                    kdef = expand_local(x.slice, defs) if isinstance(x.slice, ast.Name) else None
+                    if isinstance(kdef, ast.IfExp):
+                        kdef = kdef.body
+                    from_max = isinstance(kdef, ast.Call) and isinstance(kdef.func, ast.Name) and kdef.func.id in ("max", "min") \
+                        and kdef.args and norm(kdef.args[0]) == d
+                    if not (is_attr_dict or from_max):
+                        continue
+                    ctx.analysed(f)
+                    inst = f"{f.short}: {norm(x)} key present"
+                    facts = facts_at(g, n, defs)
+                    getdef = [nm for nm, dv in defs.items() if isinstance(dv, ast.Call) and call_attr(dv) == "get"
+                              and isinstance(dv.func, ast.Attribute) and norm(dv.func.value) == d and dv.args and norm(dv.args[0]) == kx]
+                    ok = from_max or any((a == f"{kx} in {d}" and pol) or (a == f"{kx} not in {d}" and not pol) for a, pol in facts) \
+                        or any((a == f"{nm} is None" and not pol) or (a == f"{nm} is not None" and pol) or (a == nm and pol)
+                               for nm in getdef for a, pol in facts)
+                    if ok:
+                        ctx.ok("R19f", inst)
+                    else:
+                        ctx.fail("R19f", f, x, inst, f"`{norm(x)}` raises KeyError unless `{kx} in {d}`, which nothing that dominates it "
+                                 "establishes")
         # R19c
         for c in walk_no_nested(f.node):
             if isinstance(c, ast.Call) and call_attr(c) == "AnalyzerItem":
@@ -150,6 +211,7 @@ def run(ctx) -> None:
     ctx.extra["has_tests"] = n_has
     ctx.floor("R19a", 4)
     ctx.floor("R19c", 25)
+    ctx.floor("R19f", 8)
     # ---- R19e
     lint = prog.func("openpectus.lsp.lsp_analysis:lint")
     ctx.analysed(lint)
